@@ -15,7 +15,7 @@
 //@free make_tuple(Bitset,double) => make_tuple_sd
 //@free make_tuple(Bitset,int) => make_tuple_si
 //@tu src/pomerol/Operator.cpp
-//@enum op_type
+//@enum Operator::op_type
 
 /* ---- Misc.h: const FockState ERROR_FOCK_STATE = FockState();  "A state with the size==0 is an error state" */
 const Bitset ERROR_FOCK_STATE = {0UL, 0UL};
